@@ -151,8 +151,11 @@ def observe(ch, addr, calldata, exit_name):
     """call and extract the bytes that leave the contract through the named exit (None = not produced)"""
     from .evm import log_tuple
     r = ch.call(addr, calldata)
-    if exit_name in ("ret_cd", "ret_mem", "ret_sto", "ret2", "abi_encode", "abi_encode_no_tuple", "abi_encode_method_id"):
+    if exit_name in ("ret_cd", "ret_mem", "ret_sto", "ret2", "abi_encode", "abi_encode_no_tuple", "abi_encode_method_id",
+                     "lit_darr", "lit_darr1", "lit_struct", "lit_tuple", "lit_abi_encode"):
         return r.out if r.ok else None
+    if exit_name == "lit_event":
+        return log_tuple(r.logs[0])[2] if r.ok and len(r.logs) == 1 else None
     if exit_name == "event_data":
         if r.ok and len(r.logs) == 1:
             _, topics, data = log_tuple(r.logs[0])
@@ -275,4 +278,99 @@ def run_reason_config(job):
                                             "expected": (err_sel + eS).hex(), "calldata": (mids[fn] + data).hex()})
     except Exception as e:  # noqa
         out["error"] = f"{type(e).__name__}: {e}"[:600]
+    return out
+
+
+# ---------------------------------------------------------------- literal / `multi` sources
+def build_source_lit(t):
+    """values built from list / tuple / struct LITERALS (IR `multi` nodes) instead of variables"""
+    d = A.Decls()
+    T = d.vy(t)
+    tl = ("darr", t, 2)
+    nL = A.size_bound(("tuple", (tl,)))
+    k = min(max((A.size_bound(t) * 2 + 400) // 32, 24), 160)
+    P = prelude(k)
+    src = d.text() + f"""
+struct W:
+    a: {T}
+    b: uint8
+
+event EL:
+    a: DynArray[{T}, 2]
+
+sink: uint256
+idx: uint256
+
+@external
+def lit_darr(x: {T}) -> DynArray[{T}, 2]:
+{P}    return [x, x]
+
+@external
+def lit_darr1(x: {T}) -> DynArray[{T}, 2]:
+{P}    return [x]
+
+@external
+def lit_struct(x: {T}) -> W:
+{P}    return W(a=x, b=7)
+
+@external
+def lit_tuple(x: {T}) -> (uint8, {T}):
+{P}    return 7, x
+
+@external
+def lit_enc(x: {T}) -> Bytes[{nL}]:
+{P}    return abi_encode([x, x])
+
+@external
+def lit_log(x: {T}):
+{P}    log EL(a=[x, x])
+"""
+    return src, {"nL": nL}
+
+
+def coq_pack_expr_lit(t, v, info):
+    ct, cv = A.coq_ty(t), A.coq_val(t, v)
+    return (f"let t := {ct} in let v := {cv} in "
+            f"let eL := enc (TTuple [TDArr t 2]) (VList [VList [v; v]]) in "
+            f"pack [enc (TTuple [t]) (VList [v]); eL; enc (TTuple [TDArr t 2]) (VList [VList [v]]); "
+            f"enc (TTuple [TTuple [t; TUInt 8]]) (VList [VList [v; VInt 7]]); "
+            f"enc (TTuple [TUInt 8; t]) (VList [VInt 7; v]); "
+            f"enc (TTuple [TBytes {info['nL']}]) (VList [VBytes eL])]")
+
+
+def run_lit_config(job):
+    src, cfg, t, cases = job
+    from .configs import compile_src
+    from .evm import Chain
+    out = {"cfg": cfg.name, "mismatch": [], "n": 0, "error": None}
+    try:
+        c = compile_src(src, cfg, formats=("bytecode", "bytecode_runtime", "method_identifiers"))
+    except Exception as e:  # noqa
+        out["error"] = f"compile: {type(e).__name__}: {e}"[:600]
+        return out
+    if (len(c["bytecode_runtime"]) - 2) // 2 > 24576:
+        out["skipped"] = "too large"
+        return out
+    try:
+        mids = {k.split("(")[0]: int(v, 16).to_bytes(4, "big") for k, v in c["method_identifiers"].items()}
+        ch = Chain(cfg.evm)
+        addr = ch.deploy(bytes.fromhex(c["bytecode"][2:]))
+        for ci, case in enumerate(cases):
+            eA, eL, eL1, eW, eT, wL = case["enc"]
+            plan = [("lit_darr", "lit_darr", "ret_cd", eL), ("lit_darr1", "lit_darr1", "ret_cd", eL1),
+                    ("lit_struct", "lit_struct", "ret_cd", eW), ("lit_tuple", "lit_tuple", "ret_cd", eT),
+                    ("lit_abi_encode", "lit_enc", "ret_cd", wL), ("lit_event", "lit_log", "lit_event", eL)]
+            for name, fn, kind, exp in plan:
+                if kind == "lit_event":
+                    from .evm import log_tuple
+                    r = ch.call(addr, mids[fn] + eA)
+                    got = log_tuple(r.logs[0])[2] if r.ok and len(r.logs) == 1 else None
+                else:
+                    got = observe(ch, addr, mids[fn] + eA, kind)
+                out["n"] += 1
+                if got != exp:
+                    out["mismatch"].append({"case": ci, "exit": name, "observed": None if got is None else got.hex(),
+                                            "expected": exp.hex(), "calldata": (mids[fn] + eA).hex()})
+    except Exception as e:  # noqa
+        out["error"] = f"run: {type(e).__name__}: {e} {traceback.format_exc()[-800:]}"
     return out
